@@ -94,6 +94,50 @@ def pass_counts(run, n):
                 max_ratio=round(max([c / max(1, nn) for c, nn in counts] or [0]), 2))
 
 
+def join_filter_convergence(run):
+    """optimize() must converge (and be idempotent) on filters over joins: conjunctions in both orders, every join kind."""
+    import rt
+    import pandas as pd
+    L = pd.DataFrame({"k": [0, 1, 2, 3, 1, 2], "a": range(6), "v": [1, 2, 3, 4, 5, 6]})
+    R = pd.DataFrame({"k": [1, 2, 2, 4], "x": [0, 1, 2, 3], "v": [9, 8, 7, 6]})
+    n = 0
+    preds = {
+        "x&a": lambda m: (m.x > 1) & (m.a < 8), "a&x": lambda m: (m.a < 8) & (m.x > 1), "x&a&k": lambda m: (m.x > 0) & (m.a < 8) & (m.k > 0),
+        "k&x": lambda m: (m.k > 0) & (m.x >= 1), "x|a": lambda m: (m.x > 1) | (m.a < 2), "(x&a)|(x&k)": lambda m: ((m.x > 0) & (m.a < 8)) | ((m.x > 0) & (m.k > 1)),
+        "v_x&v_y": lambda m: (m.v_x > 1) & (m.v_y < 9), "v_y&v_x": lambda m: (m.v_y < 9) & (m.v_x > 1),
+    }
+    for how in ("inner", "left", "right", "outer"):
+        for npl, npr in ((1, 1), (2, 3)):
+            dl, dr = rt.dx.from_pandas(L, npartitions=npl), rt.dx.from_pandas(R, npartitions=npr)
+            for pn, pf in preds.items():
+                for tail in ("frame", "cols", "sum"):
+                    n += 1
+                    run.count(("join-filter", how, npl, pn, tail))
+                    m = dl.merge(dr, on="k", how=how)
+                    q = m[pf(m)]
+                    q = q if tail == "frame" else (q[["k", "a"]] if tail == "cols" else q.a.sum())
+                    try:
+                        o1 = q.optimize()
+                        o2 = q.optimize()
+                        o3 = o1.optimize()
+                    except RuntimeError as ex:
+                        if "does not converge" in str(ex):
+                            run.violation("optimize() reports non-convergence for %s-merge filtered by %s (%s)" % (how, pn, tail), {"kind": "nonconv", "how": how, "pred": pn, "tail": tail})
+                        continue
+                    except Exception:
+                        continue
+                    if o1.expr._name != o2.expr._name:
+                        run.violation("optimize() twice gives different plans for %s-merge filtered by %s" % (how, pn), {"kind": "nondeterministic", "how": how, "pred": pn})
+                    pm = L.merge(R, on="k", how=how)
+                    exp = pm[pf(pm)]
+                    exp = exp if tail == "frame" else (exp[["k", "a"]] if tail == "cols" else exp.a.sum())
+                    from e2e import canon
+                    a, b = canon(o3.compute(), False, False), canon(exp, False, False)
+                    if a != b:
+                        run.violation("optimize(optimize(q)) of %s-merge filtered by %s computes %s, pandas %s" % (how, pn, str(a)[:200], str(b)[:200]), {"kind": "idempotence", "how": how, "pred": pn})
+    run.section("join_filter_convergence", cases=n)
+
+
 def run(run):
     run.trusted = common.COMMON_TRUSTED + [
         "the drivers are modelled abstractly (Drivers.v) over an arbitrary pass function; that the real simplify_once / lower_once / _fusion_pass are deterministic functions of the plan is observed (names over repetitions, hash seeds, interpreters), not proved",
@@ -105,4 +149,5 @@ def run(run):
     progcheck.run_programs(run, {"C19"}, 150 if quick else 3000, profile="l1", own={"C19"}, with_steps=False)
     progcheck.run_programs(run, {"C19"}, 150 if quick else 3000, profile="l2", own={"C19"}, with_steps=False)
     pass_counts(run, 150 if quick else 2000)
+    join_filter_convergence(run)
     hashseed_names(run, 40 if quick else 300)
